@@ -343,6 +343,15 @@ fn oracle(c: &Case, st: &mut Stats) -> Result<(), String> {
             expected.insert(n.to_string(), body.to_vec());
         }
     }
+    // the file list may be given on standard input (`mlar create ... -`), one path per line, taken as written: a name
+    // that ends with a blank stands next to the name without it
+    let names_on_stdin = !c.dir_args && c.reader_key % 3 == 1;
+    if names_on_stdin {
+        for (n, body) in [("tree/note ", &b"name with a trailing blank"[..]), ("tree/note", &b"the same name without the blank: another file"[..]), ("tree/tabbed\t", &b"name with a trailing tab"[..])] {
+            std::fs::write(d.join(n), body).map_err(|e| format!("HARNESS: {e}"))?;
+            expected.insert(n.to_string(), body.to_vec());
+        }
+    }
     // symbolic links in the tree: `mlar create` archives what a link points to, under the link's path - a link to a
     // file (longer than the link text), and in a third of the cases a link to a directory
     if let Some((rel, data)) = expected.iter().find(|(k, v)| v.len() > k.len() + 8).map(|(k, v)| (k.clone(), v.clone())) {
@@ -375,7 +384,20 @@ fn oracle(c: &Case, st: &mut Stats) -> Result<(), String> {
     } else {
         a.extend(expected.keys().cloned());
     }
-    run_ok(&a, &d, "create")?;
+    if names_on_stdin && expected.keys().all(|k| !k.contains('\n') && !k.contains('\r')) {
+        st.label("file list on standard input");
+        let n = a.iter().position(|x| x == "--").unwrap();
+        a.truncate(n + 1);
+        a.push("-".into());
+        let list: String = expected.keys().map(|k| format!("{k}\n")).collect();
+        let argv: Vec<&str> = a.iter().map(|x| x.as_str()).collect();
+        let o = cli::mlar_stdin(&argv, &d, list.as_bytes()).map_err(|e| format!("HARNESS: cannot run mlar: {e}"))?;
+        if !o.status.success() {
+            return Err(format!("`mlar {}` with the {} file names on standard input failed: {}", a.join(" "), expected.len(), cli::describe(&o)));
+        }
+    } else {
+        run_ok(&a, &d, "create")?;
+    }
     let key_for = |o: &Opts, pick: u8| -> Option<String> {
         if effective_layers(o) & 1 == 0 {
             None
